@@ -41,6 +41,10 @@ impl<I: Iterator> Prefetch<I> {
         p.prefetch();
         p
     }
+    /// Reads ahead only while being polled (never at resolver-call time).
+    pub fn new_lazy(inner: I, chooser: Chooser) -> Self {
+        Prefetch { inner, buf: VecDeque::new(), chooser, done: false }
+    }
     fn prefetch(&mut self) {
         if self.done {
             return;
@@ -90,6 +94,38 @@ impl<I: Iterator> Iterator for Prefetch<I> {
 pub struct ScheduledBatcher<A> {
     pub inner: A,
     pub chooser: Chooser,
+}
+
+/// Like `ScheduledBatcher`, but input is only pulled while the output iterator is being polled:
+/// after each demanded item the wrapper reads ahead as the chooser says. Several contexts are in
+/// flight when outcomes are produced, yet nothing happens at resolver-call time.
+pub struct PollBatcher<A> {
+    pub inner: A,
+    pub chooser: Chooser,
+}
+
+impl<A: Adapter<'static> + 'static> Adapter<'static> for PollBatcher<A> {
+    type Vertex = A::Vertex;
+
+    fn resolve_starting_vertices(&self, edge_name: &Arc<str>, parameters: &EdgeParameters, info: &ResolveInfo) -> VertexIterator<'static, Self::Vertex> {
+        Box::new(Prefetch::new_lazy(self.inner.resolve_starting_vertices(edge_name, parameters, info), self.chooser.clone()))
+    }
+    fn resolve_property<X: AsVertex<Self::Vertex> + 'static>(&self, contexts: ContextIterator<'static, X>, type_name: &Arc<str>, property_name: &Arc<str>, info: &ResolveInfo) -> ContextOutcomeIterator<'static, X, FV> {
+        Box::new(Prefetch::new_lazy(self.inner.resolve_property(contexts, type_name, property_name, info), self.chooser.clone()))
+    }
+    fn resolve_neighbors<X: AsVertex<Self::Vertex> + 'static>(
+        &self,
+        contexts: ContextIterator<'static, X>,
+        type_name: &Arc<str>,
+        edge_name: &Arc<str>,
+        parameters: &EdgeParameters,
+        info: &ResolveEdgeInfo,
+    ) -> ContextOutcomeIterator<'static, X, VertexIterator<'static, Self::Vertex>> {
+        Box::new(Prefetch::new_lazy(self.inner.resolve_neighbors(contexts, type_name, edge_name, parameters, info), self.chooser.clone()))
+    }
+    fn resolve_coercion<X: AsVertex<Self::Vertex> + 'static>(&self, contexts: ContextIterator<'static, X>, type_name: &Arc<str>, coerce_to_type: &Arc<str>, info: &ResolveInfo) -> ContextOutcomeIterator<'static, X, bool> {
+        Box::new(Prefetch::new_lazy(self.inner.resolve_coercion(contexts, type_name, coerce_to_type, info), self.chooser.clone()))
+    }
 }
 
 impl<A: Adapter<'static> + 'static> Adapter<'static> for ScheduledBatcher<A> {
